@@ -426,6 +426,34 @@ func c12run(c *engine.Ctx, only string) {
 			every(r.Sexp, "float-computed", true, "calc:"+src)
 		}
 	}
+	// one object reached twice inside one printed value (the printer's cycle guard must not mistake sharing for a cycle)
+	for _, x := range []string{"[]", "[1]", `"s"`, "(list 1)", "[[]]", "(list)", "[[] []]"} {
+		for _, shape := range []string{"[e 1 e]", "(list e e)", "[[e] e]", "[e [e 2] e]", "(list [e] (list e))"} {
+			src := "(let [e " + x + "] " + shape + ")"
+			if r := zy.Eval(env, src); r.OK() {
+				// lists evaluate as calls: only list-free values are also judged in the eval direction
+				every(r.Sexp, "shared", !strings.Contains(src, "(list"), "calc:"+src)
+			}
+		}
+		src := "(let [e " + x + "] (hash a: e b: e c: [e]))"
+		if strings.Contains(x, "(list") {
+			continue
+		}
+		if r := zy.Eval(env, src); r.OK() && c.Mine() {
+			c12roundtrip(c, env, r.Sexp, "hash", true, "calc:"+src, -1)
+		}
+	}
+	// strings computed by builtins from raw (backtick) literals and ordinary ones
+	for _, raw := range []string{"`run: `", "`a\"b`", "`x\\y`", "``"} {
+		for _, piece := range c12strPool {
+			q := strconv.Quote(piece)
+			for _, src := range []string{"(concat " + raw + " " + q + ")", "(concat " + q + " " + raw + ")", "(concat " + raw + " " + q + " " + raw + ")", "(str (concat " + raw + " " + q + "))"} {
+				if r := zy.Eval(env, src); r.OK() {
+					every(r.Sexp, "string-computed", true, "calc:"+src)
+				}
+			}
+		}
+	}
 	every(&zygo.SexpBool{Val: true}, "bool", true, "bool:true")
 	every(&zygo.SexpBool{Val: false}, "bool", true, "bool:false")
 	every(zygo.SexpNull, "nil", true, "nil:")
@@ -467,7 +495,7 @@ func init() {
 		ID:    "C12",
 		Level: "exploration",
 		Rule: "values: 18 boundary ints, ~1300 floats (grid, every 7th power of two over the whole exponent range with neighbours [thorough: all 2098], values computed by the interpreter's own arithmetic), bools, nil, chars and 1-char strings over U+0000..U+20FF + every 257th scalar above + representatives [thorough: all 1,112,064 Unicode scalars], " +
-			"all 2-char strings over a 21-char adversarial pool [thorough: 3-char], 22 symbols, 11 JSON-like hashes; each bare, in a list, in an array and nested to depth 3; (read (str v)) must equal v structurally (numbers by value) and for JSON-like values (eval (read (str v))) too. " +
+			"all 2-char strings over a 21-char adversarial pool [thorough: 3-char], strings computed by concat from raw (backtick) and quoted literals, one object shared twice inside a value (7 objects x 6 shapes), 22 symbols, 11 JSON-like hashes; each bare, in a list, in an array and nested to depth 3; (read (str v)) must equal v structurally (numbers by value) and for JSON-like values (eval (read (str v))) too. " +
 			"literals: ~700 numeric spellings (decimal with _, 0x 0o 0b, ULL, fraction, exponent, sign, Inf, NaN) against strconv/math/big, and char/string literals for every rune of the set and every escape; each with and without a terminating blank",
 		Assumptions: []string{"equality is structural with numbers compared by value (an integral float may read back as an integer)", "the printed form of +-Inf is only required to read back, not to evaluate"},
 		Run:         func(c *engine.Ctx) { c12run(c, "") },
